@@ -122,35 +122,30 @@ pub fn count_strings(data: &[u8]) -> usize {
     data.split(|&c| c == 0).filter(|s| !s.is_empty()).count()
 }
 
-/// Result of looking for the length of the fixed MOGP header: the sub-chunks that follow it must
-/// tile the rest of the MOGP payload exactly.
+/// Layout of a MOGP payload: a fixed header followed by sub-chunks that must tile the rest.
 pub struct GroupLayout {
-    /// header length for which the sub-chunks tile exactly (None: no length does)
-    pub header_len: Option<usize>,
-    /// the sub-chunk walk for the chosen header length (best effort when header_len is None)
+    /// length of the fixed header = offset of the first sub-chunk identifier in the payload
+    /// (the whole payload if it holds no sub-chunk)
+    pub header_len: usize,
+    /// walk of the sub-chunks behind the header; `sub.gaps` non-empty = they do not tile
     pub sub: Walk,
-    /// header length used for `sub`
-    pub used_len: usize,
 }
 
 pub fn group_layout(b: &[u8], mogp: &Ck) -> GroupLayout {
-    let size = mogp.end - mogp.start;
-    // Choose the header length whose sub-chunk walk covers the most payload bytes with chunks;
-    // ties: fewer uncovered bytes, then the shorter header. (A longer "exact" length that merely
-    // skips leading sub-chunks covers fewer bytes and loses.)
-    let mut best: Option<(usize, usize, usize, Walk)> = None; // (covered, gap, h, walk)
-    for h in 0..=size.min(256) {
-        let w = walk(b, mogp.start + h, mogp.end, &GROUP_SUB_IDS);
-        let gap: usize = w.gaps.iter().map(|g| g.len).sum();
-        let covered = size - h - gap;
-        let better = match &best {
-            None => true,
-            Some((c, g, _, _)) => covered > *c || (covered == *c && gap < *g),
-        };
-        if better {
-            best = Some((covered, gap, h, w));
+    // The header holds offsets, flags, floats and small counters, never a reversed sub-chunk
+    // identifier; so the first such identifier marks the end of the header whatever its length.
+    let mut h = mogp.end - mogp.start;
+    let mut p = mogp.start;
+    while p + 8 <= mogp.end {
+        let raw = [b[p + 3], b[p + 2], b[p + 1], b[p]];
+        if let Ok(id) = std::str::from_utf8(&raw) {
+            if GROUP_SUB_IDS.contains(&id) {
+                h = p - mogp.start;
+                break;
+            }
         }
+        p += 1;
     }
-    let (_, gap, h, w) = best.unwrap();
-    GroupLayout { header_len: if gap == 0 { Some(h) } else { None }, sub: w, used_len: h }
+    let sub = walk(b, mogp.start + h, mogp.end, &GROUP_SUB_IDS);
+    GroupLayout { header_len: h, sub }
 }
